@@ -38,6 +38,10 @@ CLAIMED = {
    "Structural conditions for schedule- and map-order independence, decided on every run over everything reachable from the benchstat command (repository packages plus the statistics library's source, dynamic calls resolved with a VTA call graph): every map range is classified by the effects of its body and order-sensitive ones are reported (the intern-table eviction is allow-listed with a checked side obligation); for every go statement Add precedes it, the body calls Done and releases the limiter on every path, and a Wait lies on every path to the return and to the next phase; every write inside goroutine bodies (field-level write summaries propagated over the call graph) targets an object owned by the iteration, no written field is read through a link to another iteration's object, and shared lazily-built state is only written under sync.Once/sync.Map; no ambient nondeterminism is reachable; cell values are consumed only by the sorting constructor; the key comparison's decision table is total.",
    "Does not decide byte identity of the output as such, the standard library's internals (covered by the reviewed effect table in effects.go), or aliasing through copied pointers beyond the type-based ownership rule. Trusted: go/types, go/ssa, x/tools VTA, the effect table.",
    "map-range effect classification + goroutine join/ownership analysis over SSA with field-level write summaries and a VTA call graph"),
+ "C17": ("DESIGN.md §4 C17",
+   "Structural conditions decided on every run: Sort resolves to a stable sort; the outlier filter's fence is computed unconditionally from Percentile(0.25/0.75) of the raw values with the documented formulas (rational identity), a value is kept exactly when inside the fence, and min/max/mean come from the kept slice; the row construction's complete decision table (extracted by abstract interpretation from the SSA between the delta-test call and the row append) equals DESIGN Appendix A5, including the strict p<alpha gate, the delta formula, the improvement direction and the p/n note with retained sizes; zero means never enter the geomean; lists grow only through the append-if-absent helper; map ranges are order-independent and metricOf's first-match pick can match at most one entry.",
+   "Does not decide the R8 percentile values or the tests' p-values (C11/C12), nor idempotence of Tables() across repeated calls (observed: RValues accumulates; outside the property's quantifier). Trusted: go/types, go/ssa, table A5.",
+   "decision-table extraction + rational-function identity testing + site rules + map-range classification"),
 }
 
 NOT_YET = "check not built yet in this round (planned in DESIGN.md); not claimed until its rules run clean on the unchanged tree"
